@@ -76,7 +76,14 @@ def layouts(tier):
                 for order in (0, 1):
                     out.append((k1, c1, k2, c2, init, order))
     if tier == 'quick':
-        out = out[::2]
+        # both sys.path orders where the roots compete (node `a` is a package or namespace portion in both roots);
+        # elsewhere one order per layout, alternating
+        keep = []
+        for i, l in enumerate(out):
+            compete = l[0] in ('package', 'namespace') and l[2] in ('package', 'namespace')
+            if compete or (i // 2 + l[5]) % 2 == 0:
+                keep.append(l)
+        out = keep
     return out
 
 
@@ -186,8 +193,6 @@ def check_layout(layout):
 def run(repo, seed, tier):
     import multiprocessing as mp
     lay = layouts(tier)
-    if tier == 'quick':
-        lay = [l for i, l in enumerate(lay) if (i + seed) % 2 == 0]
     with mp.get_context('fork').Pool(min(16, os.cpu_count() or 4), initializer=_init_worker) as pool:
         results = pool.map(check_layout, lay, chunksize=2)
     evaluations = sum(r[0] for r in results)
